@@ -692,7 +692,10 @@ func (g *fastGenerator) unmarshalMapField(varName string, field *protogen.Field)
 		g.P(`return `, protoifacePkg.Ident("UnmarshalOutput"), "{NoUnkeyedLiterals: input.NoUnkeyedLiterals, Flags: input.Flags},", g.Ident("io", `ErrUnexpectedEOF`))
 		g.P(`}`)
 		buf := `dAtA[iNdEx:postmsgIndex]`
+		// a value record that occurs again in the same entry merges into the value
+		g.P(`if `, varName, ` == nil {`)
 		g.P(varName, ` = &`, g.noStarOrSliceType(field), `{}`)
+		g.P(`}`)
 		g.decodeMessage(varName, buf, field.Message)
 		g.P(`iNdEx = postmsgIndex`)
 	case protoreflect.BytesKind:
